@@ -167,9 +167,11 @@ def addSt (s : State) (T i n : Nat) (e t : Bool) : State :=
   setTree s3 t T (insertS s3 i (tree s3 t T))
 
 def regStep (st : State) (T i n : Nat) (e t : Bool) : Option (State × List Out) :=
-  if busy st T || st.lock.isSome then none
+  if busy st T then none
+  -- the range check comes first in the C code, before sig_lock is taken: it can fail while another thread holds the lock
+  else if decide (NSIG ≤ n) then (if st.reg i then none else some (st, [Out.err]))
+  else if st.lock.isSome then none
   else if st.reg i then none
-  else if decide (NSIG ≤ n) then some (st, [Out.err])
   else
     let s := baseSt st
     some (addSt s T i n e t, baseOut st ++ (if s.count n == 0 then [Out.disp n true] else []))
